@@ -155,6 +155,31 @@ Check scan_accepts_what_the_write_path_encodes : forall version sector r,
   Ok (Advance (sector + need_of version r) (index_one c version sector r st4) jl).
 Print Assumptions scan_accepts_what_the_write_path_encodes.
 
+(* ... and the value: the entry the scan makes for an encoded extent reads back exactly the
+   record's value bytes (the extent is re-read and checked against the entry first) *)
+Theorem indexed_entry_reads_back_its_value : forall version sector r,
+  0 < N.of_nat (length (r_key r)) ->
+  (6 + length (r_key r) + 16 + (if has_expiry version then 8 else 0) <= BLOCK)%nat ->
+  0 < N.of_nat (length (r_value r)) -> N.of_nat (length (r_value r)) <= MAX_VALUE_SIZE ->
+  r_ts r < 2 ^ 64 -> r_exp r < 2 ^ 64 ->
+  forall img rest0,
+  skipn (N.to_nat sector) img = chunk_blocks (encode_extent version sector r) (N.to_nat (need_of version r)) ++ rest0 ->
+  read_value version img
+    (mkentry (r_key r) (r_ts r) (if has_expiry version then r_exp r else 0) (N.of_nat (length (r_value r))) sector)
+  = Some (r_value r).
+Proof. exact read_value_returns_the_value. Qed.
+Check indexed_entry_reads_back_its_value : forall version sector r,
+  0 < N.of_nat (length (r_key r)) ->
+  (6 + length (r_key r) + 16 + (if has_expiry version then 8 else 0) <= BLOCK)%nat ->
+  0 < N.of_nat (length (r_value r)) -> N.of_nat (length (r_value r)) <= MAX_VALUE_SIZE ->
+  r_ts r < 2 ^ 64 -> r_exp r < 2 ^ 64 ->
+  forall img rest0,
+  skipn (N.to_nat sector) img = chunk_blocks (encode_extent version sector r) (N.to_nat (need_of version r)) ++ rest0 ->
+  read_value version img
+    (mkentry (r_key r) (r_ts r) (if has_expiry version then r_exp r else 0) (N.of_nat (length (r_value r))) sector)
+  = Some (r_value r).
+Print Assumptions indexed_entry_reads_back_its_value.
+
 (* newest timestamp wins, whichever generation the scan meets first: an older generation of an
    indexed key leaves the index as it is and is queued for retirement ... *)
 Theorem scan_retires_an_older_generation : forall version sector r,
